@@ -26,6 +26,7 @@ package collection
 // The SafeMap methods are verified against these contracts under C16 (coupling invariant smRep).
 //@ ghost var smH map[*SafeMap]map[any]bool
 //@ ghost var smV map[*SafeMap]map[any]any
+//@ ghost var smN map[*SafeMap]int
 //@ spec smHas(m *SafeMap, k any) bool = smH[m][k]
 //@ spec smGet(m *SafeMap, k any) any = smV[m][k]
 
@@ -49,9 +50,18 @@ package collection
 //@   ensures  wait(pos, tw.tickedPos, tw.numSlots) + circle*tw.numSlots == int(d / tw.interval)
 //@   modifies nothing
 
+// Coupling between the model fields and the two-generation representation (lock invariant of m.lock):
+// the key set is the disjoint union of the two maps, values are read from whichever map holds the key.
+//@ lockinv (m *SafeMap) lock: m.dirtyOld != nil && m.dirtyNew != nil && m.dirtyOld != m.dirtyNew
+//@ lockinv (m *SafeMap) lock: forall(k.(any), !(inDom(m.dirtyOld, k) && inDom(m.dirtyNew, k)))
+//@ lockinv (m *SafeMap) lock: forall(k.(any), smH[m][k] == (inDom(m.dirtyOld, k) || inDom(m.dirtyNew, k)))
+//@ lockinv (m *SafeMap) lock: forall(k.(any), implies(smH[m][k], smV[m][k] == ite(inDom(m.dirtyOld, k), m.dirtyOld[k], m.dirtyNew[k])))
+//@ lockinv (m *SafeMap) lock: smN[m] == len(m.dirtyOld) + len(m.dirtyNew)
+//@ guarded_by deletionOld, deletionNew, dirtyOld, dirtyNew
+
 //@ func (m *SafeMap) Get
 //@   property C16
-//@   trusted
+//@   flag old_at_lock
 //@   results val, ok
 //@   requires m != nil
 //@   ensures  ok == smH[m][key] && implies(ok, val == smV[m][key])
@@ -59,17 +69,43 @@ package collection
 
 //@ func (m *SafeMap) Set
 //@   property C16
-//@   trusted
+//@   flag old_at_lock
 //@   requires m != nil
+//@   ghost at after Lock#0: smN[m] = smN[m] + ite(smH[m][key], 0, 1)
+//@   ghost at after Lock#0: smH[m][key] = true
+//@   ghost at after Lock#0: smV[m][key] = value
 //@   ensures  smH[m] == upd(old(smH[m]), key, true) && smV[m] == upd(old(smV[m]), key, value)
-//@   modifies smH[m], smV[m]
+//@   ensures  smN[m] == old(smN[m]) + ite(old(smH[m][key]), 0, 1)
+//@   modifies smH[m], smV[m], smN[m], m.deletionOld, m.deletionNew, mapof(m.dirtyOld), mapof(m.dirtyNew)
 
 //@ func (m *SafeMap) Del
 //@   property C16
-//@   trusted
+//@   flag old_at_lock
 //@   requires m != nil
+//@   ghost at after Lock#0: smN[m] = smN[m] - ite(smH[m][key], 1, 0)
+//@   ghost at after Lock#0: smH[m][key] = false
 //@   ensures  smH[m] == upd(old(smH[m]), key, false) && smV[m] == old(smV[m])
-//@   modifies smH[m], smV[m]
+//@   ensures  smN[m] == old(smN[m]) - ite(old(smH[m][key]), 1, 0)
+//@   modifies smH[m], smV[m], smN[m], m.deletionOld, m.deletionNew, m.dirtyOld, m.dirtyNew, mapof(m.dirtyOld), mapof(m.dirtyNew)
+//@   allocates
+//@   ghost at before len#0: O1 = domof(m.dirtyOld)
+//@   ghost at before len#0: OV1 = valof(m.dirtyOld)
+//@   ghost at before len#0: N1 = domof(m.dirtyNew)
+//@   ghost at before len#0: NV1 = valof(m.dirtyNew)
+//@   ghost at before len#1: O2 = domof(m.dirtyOld)
+//@   ghost at before len#1: OV2 = valof(m.dirtyOld)
+//@   ghost at before len#1: N2 = domof(m.dirtyNew)
+//@   ghost at before len#1: NV2 = valof(m.dirtyNew)
+//@   ghost at before len#0: CN1 = len(m.dirtyNew)
+//@   ghost at before len#1: CO2 = len(m.dirtyOld)
+//@   loop 0: modifies mapof(m.dirtyNew)
+//@   loop 0: invariant len(m.dirtyNew) == CN1 + nseen
+//@   loop 0: invariant forall(k.(any), inDom(m.dirtyNew, k) == (N1[k] || (seen[k] && O1[k])))
+//@   loop 0: invariant forall(k.(any), implies(inDom(m.dirtyNew, k), m.dirtyNew[k] == ite(seen[k] && O1[k], OV1[k], NV1[k])))
+//@   loop 1: modifies mapof(m.dirtyOld)
+//@   loop 1: invariant len(m.dirtyOld) == CO2 + nseen
+//@   loop 1: invariant forall(k.(any), inDom(m.dirtyOld, k) == (O2[k] || (seen[k] && N2[k])))
+//@   loop 1: invariant forall(k.(any), implies(inDom(m.dirtyOld, k), m.dirtyOld[k] == ite(seen[k] && N2[k], NV2[k], OV2[k])))
 
 //@ func (tw *TimingWheel) setTimerPosition
 //@   property C12
@@ -254,9 +290,17 @@ package collection
 // ---- construction ----
 //@ func NewSafeMap
 //@   property C16
-//@   trusted
-//@   ensures fresh(result) && forall(k.(any), !smH[result][k])
+//@   ghost at returned#0: smH[ret] = nokeys()
+//@   ghost at returned#0: smN[ret] = 0
+//@   ensures fresh(result) && forall(k.(any), !smH[result][k]) && smN[result] == 0
 //@   allocates
+//@   modifies smH[result], smN[result]
+
+//@ func (m *SafeMap) Size
+//@   property C16
+//@   flag old_at_lock
+//@   requires m != nil
+//@   ensures  result == smN[m]
 //@   modifies nothing
 
 //@ func (tw *TimingWheel) initSlots
